@@ -188,4 +188,15 @@ def main():
 
 
 if __name__ == '__main__':
-    main()
+    try:
+        main()
+    except SystemExit:
+        raise
+    except BaseException:
+        # an internal error of the checker is not a verdict about the code: exit 2 (broken), never 1 (violation)
+        import traceback
+        traceback.print_exc()
+        sys.stderr.write('check: internal error (no verdict)\n')
+        sys.stdout.flush()
+        sys.stderr.flush()
+        os._exit(2)
